@@ -13,8 +13,10 @@ for p in $(cat /verif/driver/built.txt); do
   BINS="$BINS --bin $b"
 done
 cargo build --offline --release -p props $BINS
+cargo build --offline --profile checked -p props $BINS
 if grep -q '^C20$' /verif/driver/built.txt; then
   # the C20 monitor needs vek's interoperability features (az, mint, bytemuck)
   cargo build --offline --release -p props --bin c20 --features interop
+  cargo build --offline --profile checked -p props --bin c20 --features interop
 fi
 echo "setup: monitor binaries built"
